@@ -161,4 +161,12 @@ package interpreter
 //@   except ^\(\*Interpreter\)\.(ProcessInit|ProcessTestSubroutine|ProcessDeclarations|ProcessBackends)$
 //@   ensures [stack-never-shallower C08] len(i.callStack) >= old(len(i.callStack))
 //@   ensures? [stack-balanced C08 C13] err == nil ==> len(i.callStack) == old(len(i.callStack))
+
+// at every loop head of these functions the stack is as deep as on entry (the two functions that
+// push a frame themselves are one deeper inside their body and are excluded)
+//@ forall-funcs ^\(\*Interpreter\)\.(Process[A-Z]\w*|processExpression|restart|createBackendRequest|createDirectorRequest|getBackendProperty|getDirectorConfig|getOriginHostHeader|sendBackendRequest|setDirectorConfigProperty)$ [C08 C13]
+//@   except ^\(\*Interpreter\)\.(ProcessInit|ProcessTestSubroutine|ProcessDeclarations|ProcessBackends|ProcessSubroutine|ProcessFunctionSubroutine)$
 //@   loop? * invariant len(i.callStack) == old(len(i.callStack))
+
+//@ func (*Interpreter).ProcessFunctionSubroutine [C08 C13]
+//@   loop 1 invariant len(i.callStack) == old(len(i.callStack)) + 1
